@@ -60,6 +60,9 @@ Special(e) ==
   \* a debug assertion may fire (the harness builds with debug assertions), then nothing was written
   IF e.op = "store" /\ me.alive /\ me.cb.some /\ me.map > 0 /\ me.map < FileSize(me.cb) /\ e.res.r = "panic" /\ ObsOK(e, st)
   THEN [ok |-> TRUE, st |-> st, dev |-> {}]
+  \* E1 leaves open which of several applicable reasons validate_for_bind reports
+  ELSE IF e.op = "bind" /\ me.alive /\ me.cb.some /\ e.res.r \in BindErrs(me.cb) /\ ObsOK(e, st)
+  THEN [ok |-> TRUE, st |-> st, dev |-> {}]
   \* M1 leaves the choice of the id open: any id no living connection has
   ELSE IF e.op = "reg" /\ me.alive /\ HasMgr(st.mg, p, e.id) /\ e.res.r = "ok"
           /\ LET m == MgrOf(st.mg, p, e.id) IN e.res.cid \notin m.conns /\ e.res.cid > 0 /\ Cardinality(m.conns) < m.maxc /\ e.res.count = Cardinality(m.conns) + 1
